@@ -395,10 +395,10 @@ def run(ctx, replay=None):
             for ci, cn in enumerate(("parts", "tmps", "tildes", "dottmp")):
                 product("fault-" + cn, env["FAULTOUT"], treemod=12, treerem=(ctx.seed + 5 * ci) % 12, conc=cn)
             wfault_universe()
-            ctxfault_universe(8, (ctx.seed + 1) % 8)
+            ctxfault_universe(16, (ctx.seed + 1) % 16)
         else:
             wfault_universe()
-            ctxfault_universe(2, ctx.seed % 2)
+            ctxfault_universe(4, ctx.seed % 4)
             product("fault", env["FAULTOUT"])
             product("main", env["REQOUT"])
             d = deep_instance()
